@@ -281,7 +281,8 @@ class Ctx:
         self.pos = 0
         self.depth = 0  # solver levels pushed == prefix of self.path
         self.symbols: Dict[str, Any] = {}
-        self.choices: List[Any] = []  # (name, value) of this run
+        self.choices: List[Any] = []  # (name, index) of this run
+        self.picked: List[Any] = []  # (name, element) human readable
         self.events: List[Any] = []  # harness-level trace of this run
         self.failures: List[Failure] = []
         self.covers: Dict[str, int] = {}
@@ -437,7 +438,9 @@ class Ctx:
                 self.path.append(d)
             self._level(None)
             v = d.val
-        self.choices.append((name, seq[v] if seq is not None and _plain(seq[v]) else v))
+        self.choices.append((name, v))
+        if seq is not None and _plain(seq[v]):
+            self.picked.append((name, seq[v]))
         return seq[v] if seq is not None else v
 
     def flag(self, name: str) -> bool:
@@ -536,6 +539,7 @@ class Ctx:
                     case=self.case,
                     assignment=assignment,
                     choices=[list(c) for c in self.choices],
+                    picked=[list(c) for c in self.picked],
                     events=[_show(e) for e in self.events[-200:]],
                     info={k: _show(v) for k, v in info.items()},
                 ),
@@ -548,6 +552,7 @@ class Ctx:
     def begin(self) -> None:
         self.pos = 0
         self.choices = []
+        self.picked = []
         self.events = []
         self._fresh = 0
         self._divcache = {}
